@@ -475,6 +475,13 @@ func (hc *handlerCtx) checkHandler(rep *Report, key string, vals [][]byte, build
 	seq := hc.next
 	hc.next++
 	from, to, denom := c.Addr("u2"), c.Addr("u1"), c.Denom("d1")
+	// the leaf commits to the address STRINGS: also use the upper-case spelling of the same bech32 addresses
+	if seq%2 == 1 {
+		to = c.Addr("up:u1")
+	}
+	if seq%3 == 0 {
+		from = c.Addr("up:u2")
+	}
 	leaf := fmtx.Leaf(1, seq, from, to, denom, 1)
 	sroot := fmtx.RootFromProof(leaf, vals)
 	bh := c.BlockHash("hx")
